@@ -124,7 +124,7 @@ func availabilityFacts(c *core.Ctx, p *prover.F) func(call *ssa.Call, result boo
 							continue
 						}
 						pr := proposition(e)
-						if strings.HasSuffix(pr, ">=param") && strings.HasPrefix(pr, "Len(") {
+						if strings.HasPrefix(pr, "Len(") && strings.Contains(pr, ")>=p") {
 							if b, isB := e.Cond.(*ssa.BinOp); isB {
 								for k, prm := range callee.Params {
 									if b.X == ssa.Value(prm) || b.Y == ssa.Value(prm) {
